@@ -71,6 +71,9 @@ type (
 		parserMu sync.Mutex
 		parser   parser.Parser
 
+		// The reason of the last call of `onClose`. See `clientSocket.registerSubEvents`.
+		lastCloseReason atomic.Value
+
 		// Incremented each time a connection ends. See `onParserFinish`.
 		connEpoch atomic.Uint64
 
@@ -353,6 +356,7 @@ func (m *Manager) onClose(reason Reason, err error) {
 	// The callbacks of the connection are switched off before the epoch changes: what they
 	// let through before is of the epoch that ends here (see `connect`).
 	m.cleanup()
+	m.lastCloseReason.Store(reason)
 	m.backoff.reset()
 
 	// The state and the epoch change together: whoever finds the manager connected
